@@ -11,6 +11,7 @@ CFG = {
             "(start-up+Close; frames, SetAppID with ids incl. the original/empty/';'/non-ASCII, mouse shapes, titles, Suspend/Resume cycles with a cursor request pending, Close, second Close; "
             "frames then Close triggered by a kill signal on the input goroutine; Close while suspended; SetAppID then input-goroutine panic in a child process); "
             "the oracle compares with the fake terminal's own original cursor style / application id, not with what Vaxis stored; "
+            "every frame line is also judged against the hypotheses Op.ok of the session theorem (admissible tokens, no hyperlink left open); "
             "non-trivial = a startup/setappid/suspend/resume/close line; distinct by case op list",
     "trusted_base": ["Spec.ModeTerm (mode terminal: ignores private modes it does not implement), Spec.Tokenize",
                      "writer prologue/epilogue model shared with C01 (tied by the C01 correspondence)",
